@@ -59,14 +59,14 @@ def linear(node, func, defs, ctxinfo) -> Optional[Dict[str, int]]:
             src = node.value
             if isinstance(src, ast.Name) and src.id in defs:
                 src = defs[src.id]
-            if _is_cache_stat(src):
+            if _is_cache_stat(src, defs):
                 return {"MTIME": 1}
             return {"OTHER_MTIME:" + norm(node.value): 1}
     if isinstance(node, ast.Attribute) and node.attr == "st_mtime":
         src = node.value
         if isinstance(src, ast.Name) and src.id in defs:
             src = defs[src.id]
-        if _is_cache_stat(src):
+        if _is_cache_stat(src, defs):
             return {"MTIME": 1}
         return {"OTHER_MTIME:" + norm(node.value): 1}
     if isinstance(node, ast.Attribute) and dotted(node) == "self.cachetime":
@@ -74,9 +74,14 @@ def linear(node, func, defs, ctxinfo) -> Optional[Dict[str, int]]:
     return {"OTHER:" + norm(node)[:40]: 1}
 
 
-def _is_cache_stat(src) -> bool:
-    return isinstance(src, ast.Call) and isinstance(src.func, ast.Attribute) and src.func.attr == "stat" \
-        and len(src.args) == 1 and norm(src.args[0]) == "self.cachename"
+def _is_cache_stat(src, defs=None) -> bool:
+    if not (isinstance(src, ast.Call) and isinstance(src.func, ast.Attribute) and src.func.attr == "stat" and len(src.args) == 1):
+        return False
+    a = src.args[0]
+    for _ in range(3):
+        if isinstance(a, ast.Name) and defs and a.id in defs:
+            a = defs[a.id]
+    return norm(a) == "self.cachename"
 
 
 def freshness(node, truthv, func, defs, ctxinfo):
